@@ -9,7 +9,11 @@ REC = "datasketches::tdigest"
 
 
 def td(facts):
-    return {p: f for p, f in functions_by(facts, ["tdigest"]).items() if f.get("rect") == REC and f.get("body") is not None}
+    """member functions as the rules look at them: private void helpers other than the anchors (merge / compress) seen through"""
+    from astu import inlined_body
+    fns = functions_by(facts, ["tdigest"])
+    by_pat = {f["pat"]: f for f in fns.values()}
+    return {p: dict(f, body=inlined_body(f, by_pat, keep=("merge", "compress", "update", "check_split_points"))) for p, f in fns.items() if f.get("rect") == REC and f.get("body") is not None}
 
 
 def _top(fn):
